@@ -1,7 +1,8 @@
 //! Bounded Kani harnesses for the one function of the claim that is outside Verus's reach:
 //! `Arena::get_node_id` (raw pointer range test and pointer arithmetic).  BOUNDED: arenas of at
 //! most 3 slots, one removal and one recycling; labelled bounded in the evidence, never counted as
-//! proved.  (A node of a *different* arena cannot be checked here: CBMC's pointer model rejects
+//! proved.  Quick tier: `gni_fresh` (debug build) and `gni_small_recycled` (built without debug assertions:
+//! the crate's debug_assert_eq! formatting paths dominate CBMC's time); thorough tier: all three, debug build.  (A node of a *different* arena cannot be checked here: CBMC's pointer model rejects
 //! the comparison of pointers into different allocations that the function performs.)
 #[cfg(kani)]
 mod harness {
@@ -10,7 +11,7 @@ mod harness {
     /// get_node_id(arena.get(id)) == Some(id) for every id of an arena with 1..=3 fresh nodes
     #[kani::proof]
     #[kani::unwind(5)]
-    fn get_node_id_roundtrip_fresh() {
+    fn gni_fresh() {
         let mut a: Arena<u8> = Arena::new();
         let n: usize = kani::any();
         kani::assume(n >= 1 && n <= 3);
@@ -28,10 +29,27 @@ mod harness {
         assert!(a.get_node_id_at(id.into()) == Some(id));
     }
 
+    /// after one removal and the recycling of that slot (fixed history, symbolic lookup target)
+    #[kani::proof]
+    #[kani::unwind(5)]
+    fn gni_small_recycled() {
+        let mut a: Arena<u64> = Arena::new();
+        let x = a.new_node(1);
+        let y = a.new_node(2);
+        x.remove(&mut a);
+        let fresh = a.new_node(9);
+        let pick: bool = kani::any();
+        let id = if pick { fresh } else { y };
+        let node = a.get(id).unwrap();
+        assert!(a.get_node_id(node) == Some(id));
+        assert!(a.get_node_id_at(id.into()) == Some(id));
+        assert!(x.is_removed(&a));
+    }
+
     /// the same after one slot has been removed and recycled (free list drained or not)
     #[kani::proof]
     #[kani::unwind(5)]
-    fn get_node_id_roundtrip_recycled() {
+    fn gni_full_recycled() {
         let mut a: Arena<u64> = Arena::new();
         let x = a.new_node(1);
         let y = a.new_node(2);
